@@ -196,7 +196,7 @@ def structured_mutants(valids):
     return out
 
 
-def run_case(ctx, rng, work, bad, goods):
+def run_case(ctx, rng, work, bad, goods, summary=False):
     paths = []
     order = rng.shuffle([('bad', None)] + [('good', g) for g in goods]) if goods else [('bad', None)]
     for kind, g in order:
@@ -205,7 +205,8 @@ def run_case(ctx, rng, work, bad, goods):
     env = {'S4_VERIF_TRACE': trace}
     if rng.chance(1, 2):
         env['S4_VERIF_DELAYS'] = '%d:500' % rng.below(10000)
-    rc, out, err, wall = e2e.s4(e2e.BASE_ARGS + ['-n'] + paths, env=env, timeout=TIME_LIMIT)
+    # every third run also asks for --summary: the code that runs after the printing loop sees the failed sources' (dummy) summaries too
+    rc, out, err, wall = e2e.s4(e2e.BASE_ARGS + ['-n'] + (['--summary'] if summary else []) + paths, env=env, timeout=TIME_LIMIT)
     toks = e2e.parse_trace(trace) if os.path.exists(trace) else []
     if os.path.exists(trace):
         os.unlink(trace)
@@ -237,14 +238,15 @@ def oracle_and_corr(ctx):
         open(bad, 'wb').write(bdata)
         ngood = rng.pick([0, 1, 1, 2, 3])
         goods = coord_common.make_sources(rng, work, ngood, kinds=('plain', 'gz'), max_msgs=15) if ngood else []
-        paths, rc, out, err, wall, toks = run_case(ctx, rng, work, bad, goods)
+        with_summary = k % 3 == 1
+        paths, rc, out, err, wall, toks = run_case(ctx, rng, work, bad, goods, summary=with_summary)
         ev += 1
-        case = {'mutant': desc, 'bad_name': bname, 'bad_bytes': len(bdata), 'good_sources': [g['name'] for g in goods], 'order': [os.path.basename(p) for p in paths]}
+        case = {'mutant': desc, 'bad_name': bname, 'bad_bytes': len(bdata), 'good_sources': [g['name'] for g in goods], 'order': [os.path.basename(p) for p in paths], 'summary': with_summary}
         oc = 'rc%d' % rc
         outcomes[oc] = outcomes.get(oc, 0) + 1
         if rc not in (0, 1) or b'panicked at' in err or b'RUST_BACKTRACE' in err:
             failures.append({'signature': 'malformed:crash-or-bad-exit-status', 'detail': f'rc={rc} wall={wall:.1f}s stderr tail={err[-400:]!r}', 'case': case,
-                             'bad_file_hex': bdata.hex() if len(bdata) <= 8000 else 'large', 'args': e2e.BASE_ARGS + ['-n'] + case['order']})
+                             'bad_file_hex': bdata.hex() if len(bdata) <= 8000 else 'large', 'args': e2e.BASE_ARGS + ['-n'] + (['--summary'] if with_summary else []) + case['order']})
         elif wall > TIME_LIMIT - 1:
             failures.append({'signature': 'malformed:hang', 'detail': f'no exit within {TIME_LIMIT}s', 'case': case})
         else:
@@ -276,7 +278,7 @@ def oracle_and_corr(ctx):
         os.unlink(bad)
     orc = {'evaluations': ev, 'distinct_nontrivial': ev, 'failures': failures, 'samples': samples, 'exit_status_histogram': outcomes,
            'rule': f'{n} mutants (truncation at boundary and random points, header bit flips, byte smashes, random bytes, constant fill, duplicated tail, complete file + trailing junk / second member, well-formed xz / gzip / tar files whose size and time header fields carry extreme values, valid content under '
-                   f'15 mismatching names) of valid text/gz/bz2/xz/lz4/tar/wtmp/evtx/journal files, alone and beside 1-3 valid sources in shuffled order, half under delay plans; '
+                   f'15 mismatching names) of valid text/gz/bz2/xz/lz4/tar/wtmp/evtx/journal files, alone and beside 1-3 valid sources in shuffled order, half under delay plans, every third run with --summary; '
                    f'exit status in {{0,1}}, no panic text, exit within {TIME_LIMIT}s, healthy sources\' lines all printed in merge order; every mutant is distinct (fresh PRNG draw)'}
     corr = coord_common.trace_correspondence(ctx, [(n_, t, p) for n_, t, p in cases if t and t[-1] == 'E'])
     return orc, [corr]
